@@ -451,7 +451,7 @@ func vfC01RunWalk(t *testing.T, res *vfh.Result, lay vfC01Layout, pool vfC01KeyP
 				}
 			}
 		}
-		if warmTp != nil {
+		if warmTp != nil && (vfh.Thorough() || ch.rnd.Intn(3) == 0) {
 			// whatever the attacker did must not poison later honest sessions on the same objects
 			if n := vfC01HonestPair(ctx, c, warmTp, ids, "p"); n != 4 {
 				c.mismatch("L2:honest-session-fails", "an honest session after the attack did not complete on both sides", 4, n)
@@ -676,6 +676,7 @@ func TestVerifC01NoiseReplay(t *testing.T) {
 			t.Fatal(err)
 		}
 		edits, forge, pure, splice := vfC01Kinds(w)
+		warm := len(w.Steps) > 0 && w.Steps[0].Op.Name() == "warm"
 		add := func(pass string, types [3]string, expand int, live bool) {
 			if only != "" && !strings.Contains(only, pass) {
 				return
@@ -692,7 +693,7 @@ func TestVerifC01NoiseReplay(t *testing.T) {
 			n := 0
 			for _, tv := range T {
 				for _, tm := range T {
-					if thorough || (len(edits) == 1 && (byteCfgs[cfg.String()] || cfg.Pro == "none" || (int(seed)+w.Walk+n)%4 == 0)) || (int(seed)+w.Walk+n)%8 == 0 {
+					if thorough || (!warm && len(edits) == 1 && (byteCfgs[cfg.String()] || cfg.Pro == "none" || (int(seed)+w.Walk+n)%4 == 0)) || (int(seed)+w.Walk+n)%8 == 0 {
 						add("forge-types", [3]string{tv, tv, tm}, -1, false)
 					}
 					n++
@@ -720,7 +721,7 @@ func TestVerifC01NoiseReplay(t *testing.T) {
 				add("bytes", [3]string{T[rnd.Intn(4)], o, T[rnd.Intn(4)]}, edits[0], false)
 			}
 		}
-		if splice > 0 {
+		if splice > 0 && !warm {
 			add("swap", [3]string{"Ed25519", "Ed25519", "Ed25519"}, -1, true)
 			add("swap", pick(), -1, true)
 		}
